@@ -263,7 +263,10 @@ class AnsiString:
                 settings_to_apply = []
                 old_settings = current_settings
                 current_settings = new_settings
-                for setting_key, setting_value in new_settings.items():
+                # Apply in the order given by the sequence itself (not the order in which effects were first seen)
+                # so that parsing the rendered result yields the same settings order again
+                seq_order = {setting.to_effect(): i for i, setting in enumerate(settings)}
+                for setting_key, setting_value in sorted(new_settings.items(), key=lambda kv: seq_order.get(kv[0], -1)):
                     if setting_key in old_settings:
                         if old_settings[setting_key] != setting_value:
                             settings_to_remove.append(old_settings[setting_key])
